@@ -91,3 +91,4 @@ open Csproto
 #print axioms Csproto.Bridge.PackedFuncs.DecodePackedInt32_refines
 #print axioms Csproto.Bridge.PackedFuncs.DecodePackedFixed64_refines
 #print axioms Csproto.Bridge.PackedFuncs.DecodePackedFixed32_refines
+#print axioms Csproto.Bridge.PackedFuncs.DecodePackedBool_refines
